@@ -26,7 +26,13 @@ func checkC06(c *Ctx) {
 	u := c.Core()
 	u.buildSSA()
 
-	// ---- C06.pair
+	ruleScopePairing(c, u, "C06.pair")
+	ruleRestC06(c, u)
+}
+
+// ruleScopePairing - BeginScope result is the receiver of a deferred EndScope; nobody ends scopes through the top frame
+func ruleScopePairing(c *Ctx, u *Universe, rule string) {
+	R := c.R
 	nPair := 0
 	for _, f := range u.srcFuncs("pkg/exec") {
 		for _, call := range u.callsNamed(f, "pkg/runtime.VM.BeginScope") {
@@ -41,28 +47,32 @@ func checkC06(c *Ctx) {
 				}
 			}
 			if def == nil {
-				R.viol("C06.pair", key, u.pos(call.Pos()), "the scope begun here is not ended by a deferred EndScope on the returned Scope object")
+				R.viol(rule, key, u.pos(call.Pos()), "the scope begun here is not ended by a deferred EndScope on the returned Scope object")
 				continue
 			}
 			// no return between BeginScope and the defer
 			w := reachableAvoiding(call.Block(), instrIndex(call)+1, func(x ssa.Instruction) bool { _, ok := x.(*ssa.Return); return ok }, func(x ssa.Instruction) bool { return x == ssa.Instruction(def) })
-			R.check(w == nil && dominatesInstr(call, def), "C06.pair", key, u.pos(call.Pos()), "EndScope deferred on the Scope returned by BeginScope: released on every exit, on the same module's symbol table", "a path returns between BeginScope and the deferred EndScope")
+			R.check(w == nil && dominatesInstr(call, def), rule, key, u.pos(call.Pos()), "EndScope deferred on the Scope returned by BeginScope: released on every exit, on the same module's symbol table", "a path returns between BeginScope and the deferred EndScope")
 		}
 	}
-	R.min("C06.pair", 3)
+	R.min(rule, 3)
 	stale := 0
 	for _, rel := range []string{"pkg/exec", "stdlib/file", "stdlib/json", "pkg/common"} {
 		for f, cs := range u.funcsCalling([]string{rel}, "pkg/runtime.VM.EndScope") {
 			for _, cs1 := range cs {
 				stale++
-				R.viol("C06.pair", u.fname(f)+":vm.EndScope", u.pos(cs1.Pos()), "vm.EndScope() resolves the scope through the current top call frame; after a failed call into another module that frame is stale and the wrong module's block is ended (declarations of the method stay visible)")
+				R.viol(rule, u.fname(f)+":vm.EndScope", u.pos(cs1.Pos()), "vm.EndScope() resolves the scope through the current top call frame; after a failed call into another module that frame is stale and the wrong module's block is ended (declarations of the method stay visible)")
 			}
 		}
 	}
 	if stale == 0 {
-		R.hold("C06.pair", "no-caller-of-vm.EndScope", "", "no evaluator code ends a scope through the top-frame lookup")
+		R.hold(rule, "no-caller-of-vm.EndScope", "", "no evaluator code ends a scope through the top-frame lookup")
 	}
 
+}
+
+func ruleRestC06(c *Ctx, u *Universe) {
+	R := c.R
 	// ---- C06.wrongerr
 	nRet := 0
 	for _, rel := range evalPkgs {
